@@ -37,6 +37,7 @@ func histoFunction(c *cli.Context) error {
 		scalerName = c.String(helpers.ScaleFlag.Name)
 		formatName = c.String(helpers.FormatFlag.Name)
 	)
+	helpers.NonNegativeOrFail(c, "n")
 
 	vt := helpers.BuildVTermFromArguments(c)
 	counter := aggregation.NewCounter()
